@@ -166,6 +166,34 @@ fn check<C: Suite>(case: &Case, ctx: &mut Ctx) -> CheckResult {
         }
     }
 
+    // a structured attack that standard interpolation does not cover: two holders who ASSUME that all
+    // non-constant coefficients of the sharing polynomial are equal (f(x) = s + a*(x + x^2 + ... + x^(t-1)))
+    // solve a 2x2 system. For an honestly random polynomial of degree t-1 >= 2 the result is unrelated to
+    // the key; it is the key exactly when the t-1 coefficients were not drawn independently.
+    if t >= 3 {
+        let g = |x: Sc<C>| -> Sc<C> {
+            let mut acc = zero::<C>();
+            let mut pw = x;
+            for _ in 1..t {
+                acc = acc + pw;
+                pw = pw * x;
+            }
+            acc
+        };
+        let pair = make_subset(n, 2, SubsetSpec { class: SubsetClass::Scattered, extra: 0, seed: rng.next() });
+        let (i1, i2) = (keys.ids[pair[0]], keys.ids[pair[1]]);
+        let (x1, x2) = (i1.to_scalar(), i2.to_scalar());
+        let (y1, y2) = (keys.kps[&i1].signing_share().to_scalar(), keys.kps[&i2].signing_share().to_scalar());
+        let den = g(x2) - g(x1);
+        if den != zero::<C>() {
+            let s = (g(x2) * y1 - g(x1) * y2) * <F<C> as frost::Field>::invert(&den).expect("non-zero");
+            let gs = gen_::<C>() * s;
+            ctx.eval(&format!("{n},{t},two-holders-structured-attack,{}", case.source.name()), true);
+            ctx.label("structured-attack:equal-coefficients");
+            ensure!(ctx, gs != vk.to_element() && el_neg::<C>(gs) != vk.to_element(), "C03/two-holders-recover-key", "two key holders recover the group secret of a {t}-of-{n} sharing by assuming equal non-constant coefficients: the polynomial's coefficients are not independent (source {})", case.source.name());
+        }
+    }
+
     let ks: Vec<usize> = if t - 1 <= 5 { (1..t).collect() } else { vec![1, 2, (t - 1) / 2, t - 2, t - 1] };
     for k in ks {
         let (subs, _exh) = subsets_of_size(n, k, if ctx.tier == Tier::Quick { 12 } else { 24 }, &mut rng);
